@@ -10,6 +10,7 @@ Python oracle on every real MIR; their proofs are work in progress (see DESIGN.m
 -/
 import NadaVerif.Lemmas.Exact
 import NadaVerif.Lemmas.FnExact
+import NadaVerif.Lemmas.AccExact
 
 namespace NadaVerif.C09
 open NadaVerif NadaVerif.Spec NadaVerif.Lemmas
@@ -60,6 +61,15 @@ theorem functions_once_and_present (st : St) (outs : List OutDecl) (m : MirProg)
   have := List.mem_filter.1 hx
   simp only [decide_eq_true_eq] at this
   exact this.2 ▸ this.1
+
+/-- No input name and no literal name is listed twice; every input / literal reference of every table has its entry. -/
+theorem inputs_literals_once_and_present (st : St) (outs : List OutDecl) (m : MirProg) (h : compile st outs = .ok m) :
+    (m.inputs.map (·.name)).Nodup ∧ (m.literals.map (·.name)).Nodup ∧
+    ∀ t ∈ allTables m, ∀ e ∈ t,
+      (∀ n p d ty, e.2 = .input n p d ty → (⟨n, ty, p, d, e.1⟩ : MirInput) ∈ m.inputs) ∧
+      (∀ v i ty, e.2 = .literal v i ty → count (toString i) (m.literals.map (·.name)) = 1) := by
+  obtain ⟨h1, _, h3, hc⟩ := compile_acc st outs m h
+  exact ⟨h1, h3, fun t ht e he => ⟨fun n p d ty heq => ((hc t ht e he).1 n p d ty heq).1, (hc t ht e he).2⟩⟩
 
 /-- Non-vacuity and a concrete dead-code example: operation 4 is traced but no output needs it. -/
 def exSt : St := St.mk 4
